@@ -215,7 +215,7 @@ def check_props(prop: str):
         res["log"] = out[-4000:]
         return res
     closed = len(re.findall(r"Closed under the global context", out))
-    axioms = sorted(set(re.findall(r"^([A-Za-z_][A-Za-z0-9_.']*)\s*:", out, flags=re.M)))
+    axioms = sorted(set(re.findall(r"^([A-Za-z_][A-Za-z0-9_.']*)\s*:", out, flags=re.M)) - {"Axioms"})
     res["assumptions"] = dict(closed=closed, listed=axioms,
                               print_assumptions_cmds=len(re.findall(r"Print Assumptions", src_nc)))
     for fn in os.listdir(tmp):
@@ -240,8 +240,8 @@ def run_coq_cases(prop: str, header: str, terms: list, shard=400, timeout=900):
         with open(p, "w") as f:
             f.write(header + "\n")
             f.write("Require Import Coq.Lists.List Coq.ZArith.ZArith Coq.Strings.String Coq.Bool.Bool.\nImport ListNotations.\nOpen Scope bool_scope.\n")
-            f.write("Definition verif_cases : list (nat * bool) :=\n  [")
-            f.write(";\n   ".join(f"({cid}%nat, {t})" for cid, t in chunk))
+            f.write("Definition verif_cases : list (Z * bool) :=\n  [")
+            f.write(";\n   ".join(f"({cid}%Z, {t})" for cid, t in chunk))
             f.write("].\n")
             f.write("Definition verif_bad := map fst (filter (fun p => negb (snd p)) verif_cases).\n")
             f.write("Eval vm_compute in (List.length verif_cases, verif_bad).\n")
@@ -258,7 +258,7 @@ def run_coq_cases(prop: str, header: str, terms: list, shard=400, timeout=900):
             logs.append(f"{os.path.basename(p)}: rc={rc}\n{out[-3000:]}")
             continue
         flat = " ".join(out.split())
-        m = re.search(r"=\s*\((\d+)%?n?a?t?,\s*(\[.*?\]|nil)\s*\)", flat)
+        m = re.search(r"=\s*\((\d+)%?n?a?t?,\s*(\[.*?\]|nil)\s*\)\s*:", flat)
         if not m:
             ok = False
             logs.append(f"{os.path.basename(p)}: unparsable output\n{out[-2000:]}")
